@@ -409,6 +409,12 @@ def r6_tested_size_is_sent_size(ctx):
         ctx.check(bool(lim) and all(o.kind == "param" for o in lim), ctx.nth("send/can_pack-limit-is-max_size"), site_of(ms, bb), "the packing limit is not the max_size parameter")
 
 
+def r20_unconditional_mutators(ctx):
+    """Mutators this property relies on always perform their effect (shared table in rules/mutators.py)."""
+    import rules.mutators as mutators
+    mutators.run_for(ctx, "C10")
+
+
 RULES = [
     ("C10.R1", "message boundaries only between chunks; chunks are whole groups / single entities; one send per message; ack list per chunk", r1_boundaries, 12, ["default", "all-features", "server-only"]),
     ("C10.R2", "graphs rebuilt and every client's group buffers resized before changes are collected", r2_freshness, 5, ["default", "all-features", "server-only"]),
@@ -416,5 +422,6 @@ RULES = [
     ("C10.R4", "graph maintenance: observer wiring, dirty marking, rebuild", r4_wiring, 14, ["default", "all-features", "server-only"]),
     ("C10.R5", "removing a relation undoes every edge adding it created (parallel edges from the two add observers)", r5_edge_symmetry, 4, ["default", "all-features", "server-only"]),
     ("C10.R6", "the size tested against the client's maximum is the size of the message that is sent (every header term enters the packing test)", r6_tested_size_is_sent_size, 6, ["default", "all-features", "server-only"]),
+    ("C10.R20", "mutators this property relies on always perform their effect (rules/mutators.py): no early return, no guard outside the allowed set", r20_unconditional_mutators, 2, ["default", "all-features"]),
 ]
 THOROUGH_CONFIGS = ["default", "all-features", "server-only"]
